@@ -407,4 +407,19 @@ example : ((coverPass [{ key := (3910, -7690), seen := 0, icao := 1 }] [((3910, 
            (coverPass (coverPass [{ key := (3910, -7690), seen := 0, icao := 1 }] [((3910, -7690), 1), ((3910, -7690), 2)])
               [((3910, -7690), 1), ((3910, -7690), 2)]).map (·.seen)) = ([1], [3]) := by decide
 
+/-! ## the statistics counter -/
+
+/-- the statistics tab's total of newly added aircraft: the same three statements (with `--filter-time=0` every counted frame is a newly
+added aircraft; reproduced on the real `Stats::update`, 2^32 calls, 16 s) -/
+theorem total_total (n : Nat) (h : n ≤ u32Max) : ∃ m, totalIncr n = .ok m ∧ m ≤ u32Max ∧ n ≤ m := by
+  refine ⟨_, rfl, ?_, ?_⟩ <;> omega
+
+theorem total_agrees_below (n : Nat) (h : n < u32Max) : totalIncr n = .ok (n + 1) ∧ totalIncrOld n = .ok (n + 1) := by
+  unfold totalIncr totalIncrOld
+  constructor
+  · congr 1; omega
+  · rw [if_neg (by omega)]
+
+theorem total_old_panics : totalIncrOld u32Max = .panic "stats.rs: attempt to add with overflow" := rfl
+
 end Adsb.C17
